@@ -30,6 +30,9 @@ CLAIMED = {
  "C07": ("exploration", "e2e", "property-based stateful (history) testing against a model of single-use records; lookup/remove trace of the stand-in audit map",
          "Generated histories of Open (fresh or reused source port, with or without record) / Request / Overwrite / Close / concurrent Batch over 5 identities whose IMDS rules make every decision reveal whose claims were used; model port -> pending record; trace must show lookup then remove at accept.",
          "Trusts that SO_LINGER 0 + explicit bind reproduces source-port reuse; the stand-in audit map's trace.", "4 C07"),
+ "C08": ("fault_enumeration", "crash", "crash-point enumeration by strace fault injection (SIGKILL at the N-th syscall) of the real key keeper, over scenarios and host-fault scripts; invariants over host state, key directory and the behaviour of a restarted agent",
+         "For every (scenario, host-fault script) the kill point N ranges over the file-system/socket/descriptor-writing syscalls from the first status poll to past the first signed request - every N in the thorough tier, a seeded stratified sample in the quick tier. The parent's reference host checks at the arrival of each attestation that the key file is already complete and equal; after the kill no key file is corrupt, a latched key is in the store, and a restarted agent authenticates (without a new key when the latched one is stored).",
+         "Process death at syscall boundaries only (no power loss / fsync); the reference host stands for the WireServer; strace's per-tracee injection counter.", "4 C08"),
  "C09": ("exploration", "keeper", "property-based stateful testing of the real KeyKeeper against a reference secure-channel host; snapshots at poll boundaries compared with a function of the latest document",
          "Histories of status documents (1.0/2.0, flips, rule replacement/removal, rotation) and per-step host failures served to the real KeyKeeper (5 ms polls); after every stable step the public getters and the redirect-policy trace must equal the reference interpretation of the latest document; failed status polls change nothing.",
          "Trusts the reference host (DESIGN.md A.3) and the feature-guarded redirect-policy trace; 'enabled without authorizationRules' is counted as under-specified.", "4 C09"),
@@ -40,7 +43,7 @@ CLAIMED = {
          "Generated request histories (repeats, concurrent batches) against rule sets in each mode; per request enforce -> 403 and zero bytes, audit -> relayed like an allowed request, disabled -> relayed; afterwards the summary and the status.json of a real status task equal the reference multiset exactly.",
          "Trusts the reference RBAC model; rule sets with unique names and URLs without duplicate keys (fully specified decisions).", "4 C11"),
  "C12": ("exploration", "keeper", "property-based history testing with a taint search of every sink for every key the host ever delivered",
-         "Run histories (latch, rotation, malformed key responses, status failures, restarts) with production logging, event logger and status task, interleaved with client traffic incl. /provision; every log/event/status/rule-dump/console/stdout byte and every byte returned to a client is searched for each delivered key in six encodings; key directory mode/owner checked.",
+         "Run histories (latch, rotation, malformed key responses, status failures, restarts) with production logging, event logger and status task, interleaved with client traffic incl. /provision; every log/event/status/rule-dump/console/stdout byte and every byte returned to a client is searched for each delivered key in six encodings; key directory mode/owner checked; a second engine reads the strace log of the real key keeper and checks that chmod 0700 of the key directory precedes the first file creation in it.",
          "Absence is only shown on explored histories; kernel logs are out of reach; one known finding (Error::Hex echo into the agent log and stdout) is tolerated by exact signature.", "4 C12"),
  "C13": ("exploration", "pure+e2e+keeper", "property-based testing and generated hostile inputs with a process-wide panic hook as oracle: direct calls, hostile requests/callers through the listener, hostile host replies through the host clients and the key keeper",
          "Three engines: (A) the truncation and canonicalisation functions with multi-byte characters placed at every in-character position around bytes 1024/4096 and obs-text header bytes; (B) RFC-valid but hostile requests and freshly exec'ed callers with long multi-byte names/command lines through the real listener, canary request and status publication afterwards; (C) mutated/mis-encoded/odd-length host replies to every host call. Any recorded panic is a violation; every valid request must get a response.",
@@ -96,6 +99,7 @@ m = {
  },
  "engines": [
    {"name": "e2e", "path": "harness/src/bin/e2e.rs", "serves_properties": ["C01", "C03", "C04", "C05", "C07", "C11", "C13", "C14", "C15"], "kind_free_text": "real ProxyServer in a private network+mount namespace, mock metadata hosts on the real addresses, raw HTTP client with stand-in attribution records; proptest-generated cases"},
+   {"name": "crash", "path": "harness/src/bin/crash.rs", "serves_properties": ["C08", "C12"], "kind_free_text": "parent = reference host + strace orchestration; child = real KeyKeeper on a current-thread runtime; SIGKILL injected at the N-th syscall"},
    {"name": "ebpfsim", "path": "harness/src/bin/ebpfsim.rs", "serves_properties": ["C06"], "kind_free_text": "unmodified linux-ebpf/ebpf_cgroup.c compiled with clang against shim headers + C model of helpers/maps (harness/build.rs, harness/csrc), driven from Rust"},
    {"name": "setuprig", "path": "harness/src/bin/setuprig.rs", "serves_properties": ["C17"], "kind_free_text": "real proxy_agent_setup binary chroot'ed into overlayfs(lower=/) in a private mount namespace + file-map model"},
    {"name": "telemetry", "path": "harness/src/bin/telemetry.rs", "serves_properties": ["C18"], "kind_free_text": "real EventReader on tokio's paused clock + raw mock host + xml-rs"},
